@@ -101,10 +101,14 @@ def build_binary(pid, b, thash):
     # prune stale builds of this binary (not the recent ones: a concurrent run may still be using them)
     for old in glob.glob(os.path.join(BUILD, prefix + "*")):
         try:
-            if time.time() - os.path.getmtime(old) > 3600:
+            if time.time() - os.path.getmtime(old) > (3600 if ".tmp" not in old else 7200):
                 shutil.rmtree(old, ignore_errors=True)
         except OSError:
             pass
+    final_bdir, final_exe = bdir, exe
+    bdir = "%s.tmp%d" % (final_bdir, os.getpid())  # build privately, publish with one rename
+    exe = os.path.join(bdir, b["name"])
+    shutil.rmtree(bdir, ignore_errors=True)
     os.makedirs(bdir)
     jobs = []
     shimflags = ["-include", os.path.join(VERIF, shim)] if shim else []
@@ -137,8 +141,12 @@ def build_binary(pid, b, thash):
     os.rename(exe + ".tmp", exe)
     for o in objs:
         os.unlink(o)
+    try:
+        os.rename(bdir, final_bdir)
+    except OSError:  # somebody else published the same build meanwhile
+        shutil.rmtree(bdir, ignore_errors=True)
     log("  built %s [%s] in %.1fs" % (b["name"], flavour, time.time() - t0))
-    return exe
+    return final_exe
 
 
 def build_all(pid, cfg, names=None):
